@@ -3,7 +3,7 @@ import re
 
 from .. import builtins as B
 from .. import rettags as RT
-from ..analysis import (Branches, CallGraph, Origins, edge_dominates, edges_dominate, fmt_terms, reach_avoiding,
+from ..analysis import (Branches, CallGraph, Origins, cfg_cycles, edge_dominates, edges_dominate, fmt_terms, reach_avoiding, success_edge,
                         region_always_errs, term_mentions)
 from ..decision import Undecided, Walker
 from ..leaf import KINDS, check_accessors, kind_walker
@@ -135,16 +135,16 @@ def check_validate_first(ctx, lib, sigs):
         vb, vt = vcalls[0]
         a0, a1, a2 = (o.of_operand(x) for x in vt["args"])
         args_ok = a0 == {("field", ("param", 1), "signature")} and a1 == {("param", 2)} and a2 == {("param", 3)}
-        # the `?`: Try::branch on the result, Continue edge
-        cont_edge = None
-        for bb, t in b.calls():
-            if t["callee"] == "std::ops::Try::branch" and all(x[0] == "call" and x[1] == "functions::Signature::validate" for x in o.of_operand(t["args"][0])):
-                sw = t["t"]
-                br = Branches(b, o)
-                ve = br.variant_edges(sw)
-                if ve and "Continue" in ve["edges"]:
-                    cont_edge = (sw, ve["edges"]["Continue"])
-                    break_t = ve["edges"].get("Break")
+        # the validation's success edge: `validate(..)?` or a match on its result whose Err arm returns the error
+        se = success_edge(b, o, Branches(b, o), lambda ts: all(x[0] == "call" and x[1] == "functions::Signature::validate" for x in ts))
+        cont_edge = (se[0], se[1]) if se else None
+        if se:
+            # the failing side returns exactly the validation error, nothing else happens there
+            freg = {x for x in reach_avoiding(b, se[2]) if edge_dominates(b, (se[0], se[2]), x)}
+            for x in freg:
+                tx = b.blocks[x]["term"]
+                if tx["k"] == "call" and tx["callee"] not in ("std::ops::FromResidual::from_residual",) and not tx["callee"].startswith("std::convert::"):
+                    cont_edge = None
         if cont_edge is None:
             ctx.bad(rule, ty, f"{ty}::evaluate does not propagate the validation error with `?`", b.span)
             continue
@@ -153,7 +153,7 @@ def check_validate_first(ctx, lib, sigs):
             if bb == vb:
                 continue
             c = t["callee"]
-            if c in ("std::ops::Try::branch", "std::ops::FromResidual::from_residual") and not edge_dominates(b, cont_edge, bb):
+            if (c in ("std::ops::Try::branch", "std::ops::FromResidual::from_residual") or c.startswith("std::convert::")) and not edge_dominates(b, cont_edge, bb):
                 continue
             if not edge_dominates(b, cont_edge, bb):
                 # calls before validate may only be derefs of self.signature
@@ -172,42 +172,58 @@ def check_validate_first(ctx, lib, sigs):
 
 
 # ---------------------------------------------------------------------------------------------
+def arity_outcomes(lib, b, o, variadic, delta):
+    """Outcomes of validate_arity under (variadic?, actual - expected = delta), walked over the decision structure whatever its
+    spelling (if-ladder, match on cmp, match on the Option)."""
+    expected, actual = 5, 5 + delta
+    holder = {}
+
+    def atom(t):
+        if t == ("param", 2):
+            return actual
+        if t[0] == "discr" and t[1][0] == "call" and t[1][1].endswith("::Ord::cmp") and len(t[1][2]) == 2 and "w" in holder:
+            try:
+                x, y = holder["w"].eval_terms(t[1][2][0]), holder["w"].eval_terms(t[1][2][1])
+            except Undecided:
+                return None
+            if x is None or y is None:
+                return None
+            return "Less" if x < y else ("Equal" if x == y else "Greater")
+        if t == ("discr", ("field", ("param", 1), "variadic")):
+            return "Some" if variadic else "None"
+        return None
+
+    def call(t, argvals):
+        if t[1].endswith("::len") and t[2][0] == fs({("field", ("param", 1), "inputs")}):
+            return expected
+        if t[1] == "std::option::Option::<T>::is_some" and t[2][0] == fs({("field", ("param", 1), "variadic")}):
+            return variadic
+        if t[1] == "std::option::Option::<T>::is_none" and t[2][0] == fs({("field", ("param", 1), "variadic")}):
+            return 1 - variadic
+        return None
+
+    w = Walker(b, o, atom=atom, call=call)
+    holder["w"] = w
+    outcomes = set()
+    for path, leaf in w.walk():
+        outcomes.add(classify_arity_result(w.result_on_path(path)))
+    return outcomes
+
+
 def check_arity(ctx, lib):
     rule = "arity-decision"
     b = ctx.fn("functions::Signature::validate_arity", rule=rule)
     if b is None:
         return
     o = Origins(b, lib)
-    exp_terms = None
     n = 0
     for variadic in (0, 1):
         for delta in (-1, 0, 1):
-            expected, actual = 5, 5 + delta
-
-            def atom(t, variadic=variadic, expected=expected, actual=actual):
-                if t == ("param", 2):
-                    return actual
-                return None
-
-            def call(t, argvals, variadic=variadic, expected=expected):
-                if t[1].endswith("::len") and t[2][0] == fs({("field", ("param", 1), "inputs")}):
-                    return expected
-                if t[1] == "std::option::Option::<T>::is_some" and t[2][0] == fs({("field", ("param", 1), "variadic")}):
-                    return variadic
-                if t[1] == "std::option::Option::<T>::is_none" and t[2][0] == fs({("field", ("param", 1), "variadic")}):
-                    return 1 - variadic
-                return None
-
-            w = Walker(b, o, atom=atom, call=call)
             try:
-                paths = w.walk()
+                outcomes = arity_outcomes(lib, b, o, variadic, delta)
             except Undecided as e:
                 ctx.bad(rule, f"variadic={variadic},delta={delta}", f"validate_arity: decision undecidable ({e})", b.span)
                 continue
-            outcomes = set()
-            for path, leaf in paths:
-                r = w.result_on_path(path)
-                outcomes.add(classify_arity_result(r))
             if variadic:
                 want = "Ok" if delta >= 0 else "NotEnough(expected,actual)"
             else:
@@ -278,27 +294,60 @@ def check_positions(ctx, lib):
     if v is None:
         return
     o = Origins(v, lib)
+    # spelling-independent (two loops under `if let Some(variadic)`, or one loop choosing the validator per position):
+    # under each case of self.variadic, every per-argument check reachable in that case validates args[k] at position k against
+    # inputs[k] (no variadic type) resp. inputs.get(k) or else the variadic type
     sites = [(bb, t) for bb, t in v.calls() if t["callee"] == "functions::Signature::validate_arg"]
-    ctx.check(len(sites) == 2, rule, "sites", f"validate has one per-argument check for the variadic and one for the fixed case (found {len(sites)})", v.span)
+    ctx.check(1 <= len(sites) <= 2, rule, "sites", f"validate has its per-argument check(s) (found {len(sites)})", v.span)
+    br0 = Branches(v, o)
+    vsw = []
+    for sb, sw in br0.switches():
+        ve = br0.variant_edges(sb)
+        if ve and ve["adt"] == "std::option::Option" and ve["scrutinee"] == {("field", ("param", 1), "variadic")}:
+            vsw.append((sb, ve["edges"].get("Some", ve["otherwise"]), ve["edges"].get("None", ve["otherwise"])))
+    ctx.check(bool(vsw), rule, "case-split", "validate distinguishes signatures with and without a variadic type", v.span)
     kinds = set()
-    for bb, t in sites:
-        pos = o.of_operand(t["args"][2])
-        val = o.of_operand(t["args"][3])
-        vd = o.of_operand(t["args"][4])
-        pos_ok = pos == {("index", ("param", 2))}
-        val_ok = val == {("elem", ("param", 2))}
-        fixed = vd == {("elem", ("field", ("param", 1), "inputs"), ("ix", fs({("index", ("param", 2))})))}
-        # variadic: inputs.get(k).unwrap_or(variadic)
-        var = all(x[0] == "call" and x[1] == "std::option::Option::<T>::unwrap_or" for x in vd) and bool(vd)
-        if var:
-            for x in vd:
-                g, d = x[2][0], x[2][1]
-                var = var and all(y[0] == "call" and y[1].endswith("::get") and y[2][0] == fs({("field", ("param", 1), "inputs")}) and y[2][1] == fs({("index", ("param", 2))}) for y in g)
-                var = var and d == fs({("field", ("param", 1), "variadic")})
-        kinds.add("fixed" if fixed else "variadic" if var else "?")
-        ctx.check(pos_ok and val_ok and (fixed or var), rule, f"site@{'fixed' if fixed else 'variadic' if var else 'unknown'}",
-                  f"validate_arg(ctx, k, args[k], {'inputs[k]' if fixed else 'inputs.get(k) or the variadic type' if var else fmt_terms(vd)}) for every k of args.iter().enumerate()", t["span"]["s"])
+    fixed_t = ("elem", ("field", ("param", 1), "inputs"), ("ix", fs({("index", ("param", 2))})))
+
+    def is_var(x):
+        if not (x[0] == "call" and x[1] == "std::option::Option::<T>::unwrap_or"):
+            return False
+        g, d = x[2][0], x[2][1]
+        return all(y[0] == "call" and y[1].endswith("::get") and y[2][0] == fs({("field", ("param", 1), "inputs")}) and y[2][1] == fs({("index", ("param", 2))}) for y in g) \
+            and bool(g) and d == fs({("field", ("param", 1), "variadic")})
+
+    for case in ("fixed", "variadic"):
+        avoid = {(sb, some_t) for sb, some_t, none_t in vsw} if case == "fixed" else {(sb, none_t) for sb, some_t, none_t in vsw}
+        feas = reach_avoiding(v, 0, avoid_edges=avoid)
+        po = Origins(v, lib, only_blocks=feas)
+        here = [(bb, t) for bb, t in sites if bb in feas]
+        for bb, t in here:
+            pos = po.of_operand(t["args"][2])
+            val = po.of_operand(t["args"][3])
+            vd = po.of_operand(t["args"][4])
+            pos_ok = pos == {("index", ("param", 2))}
+            val_ok = val == {("elem", ("param", 2))}
+            v_ok = bool(vd) and (vd == {fixed_t} if case == "fixed" else all(is_var(x) for x in vd))
+            if pos_ok and val_ok and v_ok:
+                kinds.add(case)
+            ctx.check(pos_ok and val_ok and v_ok, rule, f"site@{case}",
+                      f"validate_arg(ctx, k, args[k], {'inputs[k]' if case == 'fixed' else 'inputs.get(k) or the variadic type'}) for every k of args.iter().enumerate()"
+                      + ("" if v_ok else f" — found {fmt_terms(vd)[:120]}"), t["span"]["s"])
+        if not here:
+            ctx.bad(rule, f"site@{case}", f"no per-argument check is reachable for a {'fixed' if case == 'fixed' else 'variadic'} signature", v.span)
     ctx.check(kinds == {"fixed", "variadic"}, rule, "both-cases", f"both the fixed and the variadic position rule are present (found {sorted(kinds)})", v.span)
+    # nothing is skipped: from the Some(item) arm of the iteration the loop head is reached only through a per-argument check
+    for cyc in cfg_cycles(v):
+        cs = set(cyc)
+        nexts = [x for x in cyc if v.blocks[x]["term"]["k"] == "call" and v.blocks[x]["term"]["callee"] == "std::iter::Iterator::next"]
+        chk_blocks = [bb for bb, t in sites if bb in cs]
+        if nexts and chk_blocks:
+            nb = nexts[0]
+            sw = v.blocks[nb]["term"]["t"]
+            ve = br0.variant_edges(sw)
+            some_t = ve["edges"].get("Some", ve["otherwise"]) if ve else None
+            skip = some_t is not None and nb in reach_avoiding(v, some_t, avoid_blocks=chk_blocks)
+            ctx.check(not skip, rule, f"no-skip@bb{nb}", "every argument of the iteration goes through validate_arg (no path back to the loop head avoids it)", v.span)
     # loops: every cycle iterates enumerate(args)
     # validate_arg
     va = ctx.fn("functions::Signature::validate_arg", rule=rule)
